@@ -738,6 +738,34 @@ def gen_case(seed, index, profile=None):
             ctx.meta_account_bad = (a, stored)
             ctx.features.add("origin-meta-account-invalid")
 
+    # the values the origins produced are USED after the other statements have run (which may have credited or debited
+    # the very accounts they were read from): observed in the metadata, as a destination cap, as a sent amount
+    late = []
+    for (ty, nm, o) in ctx.decls:
+        v = ctx.values.get(nm)
+        if o and ty == "monetary" and v and v[0] == 'monetary' and rng.random() < 0.6:
+            c, val = v[1], v[2]
+            k = rng.random()
+            if k < 0.4:
+                late.append(('set_tx_meta("seen_%s", $%s)' % (nm, nm), ('txmeta', "seen_" + nm, ('monetary', "%s %d" % (c, val)))))
+            elif k < 0.8 and val >= 0:
+                n = val + rng.choice([0, 1, 5, 50])
+                late.append(("send %s (\n  source = @world\n  destination = { max $%s to @x remaining to @y }\n)" % (gen_monetary(ctx, c, n), nm),
+                             ('send', c, n, ('acct', 'world', 0), ('inorder', [(val, ('to', ('acct', 'x')))], ('to', ('acct', 'y'))))))
+            elif val >= 0:
+                late.append(("send $%s (\n  source = @world\n  destination = @z\n)" % nm,
+                             ('send', c, val, ('acct', 'world', 0), ('acct', 'z'))))
+    # an entry the store holds (and an origin has read) is overwritten, then set back to what the store holds: the last
+    # write is part of the result like any other
+    for (a, key), stored in sorted(ctx.meta.items()):
+        if stored == "USD 7" and rng.random() < 0.5:
+            late.append(('set_account_meta(@%s, "%s", [USD 8])' % (a, key), ('accmeta', a, key, "USD 8")))
+            late.append(('set_account_meta(@%s, "%s", [USD 7])' % (a, key), ('accmeta', a, key, "USD 7")))
+            ctx.features.add("meta-written-back")
+    if late:
+        stmts = stmts + late
+        ctx.features.add("origin-value-used-late")
+
     if ctx.chance("bad_origin", 0.0):
         o = rng.choice(['set_tx_meta("k", 1)', 'set_account_meta(@a, "k", 1)', 'foo(@a)', 'balances(@a, USD)', 'saves(@a)'])
         ctx.decls.append((rng.choice(["number", "monetary", "string"]), ctx.fresh("bad"), o))
@@ -784,6 +812,15 @@ def gen_case(seed, index, profile=None):
             ('send', asset, n, ('inorder', [('acct', s1, 0), ('acct', s2, 0)]),
              ('inorder', [(b1, ('to', ('acct', d1)))], ('to', ('acct', d2))))))
         ctx.features.add("aligned-boundaries")
+
+    # a literal of 19 digits above 2^63-1: the parser rejects it (a known finding says so for every literal that large);
+    # what must never happen is that it is accepted and stands for another number
+    if ctx.chance("over_literal", 0.0):
+        asset = rng.choice(ASSETS)
+        n = rng.choice([2 ** 63, 2 ** 63 + 5, 9999999999999999999, 9300000000000000000, 10 ** 19 - 1, 2 ** 63 + rng.randrange(10 ** 18)])
+        stmts.insert(0, ("send [%s %d] (\n  source = @world\n  destination = @x\n)" % (asset, n),
+                         ('send', asset, n, ('acct', 'world', 0), ('acct', 'x'))))
+        ctx.features.add("literal-over-int64")
 
     vars_block = ""
     if ctx.decls:
